@@ -23,3 +23,14 @@ REGISTRY = {
         H('k_perm', 'H_perm_set_cnk_init', 'permutation::set_cnk / init', 'full 64-bit word'),
     ],
 }
+
+LEVEL_TEXT = {
+    'C19': dict(text='Every statement about the permutation word is decided for ALL 64-bit words that encode a valid ordering, all counts 0..15 and '
+                     'all ranks by bit-precise symbolic execution of the real permutation members (no sampling); the loops have at most 15 iterations '
+                     'and are fully unwound, so inside this unit the bound loses nothing.',
+                note='Trusted: clang++-14 front end, ll2c translation (cross-validated on solver witnesses against the g++ build), CBMC+kissat. '
+                     'Pigeonhole for get_empty_slot is supplied as a witness variable.', ref='DESIGN.md 4/C19'),
+}
+
+_PENDING = 'check under construction in this round (see DESIGN.md section 8 for the order of work); not claimed yet'
+NOT_APPLICABLE = {('C%02d' % i): _PENDING for i in range(1, 21)}
